@@ -79,6 +79,12 @@ def moduleOf (fromPilotId : Bool) (side : Nat) : Nat :=
 def closePub (stopFirst : Bool) (sides : List Nat) (fuel : Nat) (c : Nat) (msg : Msg) : List (Nat × Msg) :=
   if stopFirst then [(c, msg)] else localPub sides fuel c msg
 
+/-- the sides that are still connected after side `c` closed its session: all others - unless the closing
+    side told the proxy service to end the session's channels (`unregister`), which only the client (side 0)
+    may do; `onlyPrimary` is what the code does (read by the translator) -/
+def sidesAfterClose (onlyPrimary : Bool) (sides : List Nat) (c : Nat) : List Nat :=
+  if c = 0 ∨ !onlyPrimary then [] else sides.filter (· ≠ c)
+
 /-- number of deliveries to the local subscribers of side `t` -/
 def deliveries (ds : List (Nat × Msg)) (t : Nat) : Nat :=
   (ds.filter (fun d => d.1 = t)).length
